@@ -3,7 +3,7 @@
 # Expects <worktree>/_mutant/{patch.diff,demo/run.sh}. Prints a one-line verdict per step.
 wt="$1"; m="$wt/_mutant"
 cd "$wt" || exit 2
-clean() { git checkout -q -- . 2>/dev/null; git clean -fdq -e _mutant -e target -e 'target*' 2>/dev/null; }
+clean() { git reset -q 2>/dev/null; git checkout -q -- . 2>/dev/null; git clean -fdq -e _mutant -e target -e 'target*' 2>/dev/null; }
 clean
 git apply "$m/patch.diff" || { echo "CONFIRM patch does not apply"; exit 2; }
 if cargo test --workspace --offline >"$m/confirm_tests.log" 2>&1; then echo "CONFIRM baseline-tests-with-change: pass"; else echo "CONFIRM baseline-tests-with-change: FAIL"; fi
